@@ -242,7 +242,11 @@ fn compressed_shape(ctx: &mut Ctx) {
             let plain_rejected = data.verify(p).is_err();
             let mut c = comp.clone();
             c.public_inputs = pis;
-            let comp_rejected = data.verify_compressed(c).is_err();
+            // a panic is not a clean rejection either
+            let comp_rejected = matches!(
+                std::panic::catch_unwind(std::panic::AssertUnwindSafe(|| data.verify_compressed(c).is_err())),
+                Ok(true)
+            );
             if !plain_rejected {
                 accepted.push(format!("verify: {name}"));
             }
